@@ -304,6 +304,19 @@ def check_translated_lint(run: lib.Run, audit: dict, violations: list) -> None:
                                                     "real code against the model, and algorithm-less against explicit deny-overrides — are the search "
                                                     "for a failing input)", "extraction": failed_extraction, "lean": detail[-1500:]})
         run.extra.setdefault("translated_obligation_replay", path)
+    helpers = (tr.get("helpers") or {}) if isinstance(tr, dict) else {}
+    okh, detailh = lib.run_obligation("C17_lint_helpers_translated", deps=["C17_lint_translated"])
+    failed_h = "; ".join(f"{n}: {h['failed']}" for n, h in helpers.items() if "failed" in h)
+    run.obligation("C17_lint_helpers_translated: Generated.Src.lint_resource_covers = Lint.resourceCovers, Src.lint_first_applicable_unreachable = "
+                   "Lint.firstApplicableUnreachableG (over every _actions / _resource_covers), and analyze_policy / analyze_policyset with these helpers "
+                   "plugged in = the model with the model helpers", okh, "discharged" if okh else (failed_h or str(failed_extraction or "") or detailh))
+    if not okh:
+        path = run.write_replay("obligation_lint_helpers", {"what": "per-run obligation Rbacx/Run/C17_lint_helpers_translated.lean no longer checks: the translated source of "
+                                                            "_resource_covers / _first_applicable_unreachable (dsl/lint.py) is not proved equal to the model helpers "
+                                                            "Lint.resourceCovers / Lint.firstApplicableUnreachableG (the linter comparisons of this run, real code "
+                                                            "against the model with these helpers, are the search for a failing input)",
+                                                            "extraction": failed_h or failed_extraction, "lean": detailh[-1500:]})
+        run.extra.setdefault("translated_obligation_replay", path)
     cases = lint_cases(run)
     reals = []
     for fn, doc in cases:
